@@ -101,6 +101,9 @@ type Case struct {
 	// ReadPaceUs > 0: the end named by PauseEnd reads slowly: it sleeps this long per 16 KiB it has read
 	// (behind the PausePipe-bounded pipe), PauseMs may be 0
 	ReadPaceUs int `json:"read_pace_us,omitempty"`
+	// StatsFault (bridge rig): traffic accounting is configured and the first mapping lookup of a traffic
+	// report fails once (a transient read fault at a periodic report tick)
+	StatsFault bool `json:"stats_fault,omitempty"`
 	// StorageOutage (session rig): every storage operation fails from the moment both ends are attached
 	StorageOutage bool `json:"storage_outage,omitempty"`
 	// StatsStall (bridge rig): traffic accounting is configured and its backend (CloudControl) hangs
@@ -696,6 +699,11 @@ func runCase(c Case, boundScale int) (*failure, *obs) {
 		if c.StorageOutage {
 			ctxs += "/storage-outage"
 		}
+		if c.StatsFault {
+			if _, f := r.statsLookups(); f > 0 {
+				ctxs += "/after-a-failed-mapping-lookup-of-a-traffic-report"
+			}
+		}
 		if c.RealEnd != "" {
 			ctxs += "/real-" + c.RealProto + "-end=" + c.RealEnd
 			if c.ReadPaceUs > 0 {
@@ -770,15 +778,21 @@ func runCase(c Case, boundScale int) (*failure, *obs) {
 
 	var t0 time.Time
 	switch kind {
-	case "drain-close-A", "drain-close-B":
+	case "drain-close-A", "drain-close-B", "drain-close-both":
 		f, ok := waitPre(func() bool { return A.recv.Load() == int64(c.LenBA) && B.recv.Load() == int64(c.LenAB) })
 		if !ok {
 			return f, o
 		}
 		t0 = time.Now()
-		if kind == "drain-close-A" {
+		switch kind {
+		case "drain-close-A":
 			A.closeClient()
-		} else {
+		case "drain-close-B":
+			B.closeClient()
+		default:
+			// delivery only: a transport without close signalling (KCP has no FIN) cannot show its client
+			// that the server let go, nor the server that the client left
+			A.closeClient()
 			B.closeClient()
 		}
 	case "flush-close-A", "flush-close-B":
@@ -989,7 +1003,9 @@ func runCase(c Case, boundScale int) (*failure, *obs) {
 	if c.WSEnd != "" || c.CrossNode || c.AdapterWS != "" || c.RealEnd != "" {
 		grace = bound
 	}
-	if !waitFor(grace, func() bool { return aS.IsClosed() && bS.IsClosed() }) {
+	if !waitFor(grace, func() bool {
+		return (aS.IsClosed() || (c.RealProto == "kcp" && c.RealEnd == "A")) && (bS.IsClosed() || (c.RealProto == "kcp" && c.RealEnd == "B"))
+	}) {
 		return &failure{key: "C02/server-conn-left-open/" + kindKey, detail: state()}, o
 	}
 	return nil, o
@@ -1384,6 +1400,79 @@ func (l yieldLogger) WithFields(map[string]interface{}) corelog.Logger { return 
 func (l yieldLogger) WithError(error) corelog.Logger                   { return l }
 func (l yieldLogger) WithContext(context.Context) corelog.Logger       { return l }
 
+// Background scenarios: tunnels that need tens of seconds of real time. They are started by the first
+// test, run beside everything else and are judged by TestZYBackground (the oracle is runCase's).
+type bgScenario struct {
+	name string
+	c    Case
+	done chan struct{}
+	f    *failure
+	o    *obs
+}
+
+var bgScenarios []*bgScenario
+
+func backgroundCases() []*bgScenario {
+	sh := vkit.Shard()
+	var out []*bgScenario
+	add := func(name string, c Case) {
+		out = append(out, &bgScenario{name: name, c: c, done: make(chan struct{})})
+	}
+	// (a) a tunnel with traffic accounting that is alive at the 30 s periodic report tick with more than
+	// 1 MiB copied, and the mapping lookup of that report fails once: nobody closed, so bytes keep
+	// flowing and everything arrives
+	flood := 2*1024*1024 + 4096*sh
+	a := Case{StatsFault: true, Stream: sh%2 == 0, Attach: "before-start", SeedAB: uint64(300 + sh), SeedBA: uint64(400 + sh), SpreadMs: 33500,
+		Ending: Ending{Kind: []string{"drain-close-A", "drain-close-B"}[sh%2]}}
+	if sh%4 < 2 {
+		a.LenAB, a.LenBA = flood, 3000
+	} else {
+		a.LenBA, a.LenAB = flood, 3000
+	}
+	a.WritesAB, a.WritesBA = []int{a.LenAB/60 + 1}, []int{a.LenBA/60 + 1}
+	add("report-tick-with-failed-mapping-lookup", a)
+	// (b) a KCP end that stops reading for 11 s with megabytes in flight towards it, then reads on
+	k := Case{RealProto: "kcp", Stream: true, Attach: "before-start", SeedAB: uint64(500 + sh), SeedBA: uint64(600 + sh),
+		PauseMs: 11000 + 200*(sh%3), PausePipe: 65536, Ending: Ending{Kind: "drain-close-both"}}
+	big := 5*1024*1024 + 8192*sh
+	if sh%2 == 0 {
+		k.RealEnd, k.PauseEnd, k.LenAB, k.LenBA = "B", "B", big, 100
+	} else {
+		k.RealEnd, k.PauseEnd, k.LenBA, k.LenAB = "A", "A", big, 100
+	}
+	add("kcp-end-pauses-11s-with-megabytes-in-flight", k)
+	// (c) thorough only (needs > 60 s): a one-way transfer towards an adapter-WebSocket end whose consumer
+	// is slow enough for the transfer to take ~70 s; the end itself sends nothing
+	if vkit.Thorough() && sh < 2 {
+		w := Case{AdapterWS: "B", Stream: true, Attach: "before-start", SeedAB: uint64(700 + sh), LenAB: 24 * 1024 * 1024, LenBA: 0,
+			PauseEnd: "B", PausePipe: 65536, ReadPaceUs: 46000, Ending: Ending{Kind: "drain-close-A"}}
+		if sh == 1 {
+			w.AdapterWS, w.PauseEnd, w.LenBA, w.LenAB, w.SeedBA = "A", "A", 24*1024*1024, 0, 701
+			w.Ending.Kind = "drain-close-B"
+		}
+		add("one-way-transfer-towards-websocket-end-lasting-70s", w)
+	}
+	return out
+}
+
+// TestAABackgroundStart launches the background scenarios.
+func TestAABackgroundStart(t *testing.T) {
+	if vkit.Replaying() != "" || os.Getenv("C02_NO_BACKGROUND") != "" {
+		t.Skip("no background scenarios")
+	}
+	bgScenarios = backgroundCases()
+	for _, s := range bgScenarios {
+		s := s
+		go func() {
+			defer close(s.done)
+			s.f, s.o = runCase(s.c, 1)
+			if s.f != nil && s.f.timing {
+				s.f, s.o = runCase(s.c, 3)
+			}
+		}()
+	}
+}
+
 // TestAttachRace: many small tunnels whose target attaches while Bridge.Start is already waiting for
 // it (the normal order: the source creates the bridge), with a log sink that yields on every line.
 // After the attach, bytes must flow both ways and the close of one end must reach the other.
@@ -1740,6 +1829,33 @@ func TestCloseRace(t *testing.T) {
 		c.Ending = Ending{Kind: "bridge-close", K: rapid.IntRange(0, c.LenAB+c.LenBA).Draw(t, "k"), Closers: rapid.IntRange(1, 3).Draw(t, "closers")}
 		check(t, c)
 	})
+}
+
+// TestZYBackground collects the background scenarios.
+func TestZYBackground(t *testing.T) {
+	for _, s := range bgScenarios {
+		select {
+		case <-s.done:
+		case <-time.After(6 * time.Minute):
+			t.Fatalf("inconclusive: background scenario %s did not finish", s.name)
+		}
+		class := "background:" + s.name
+		switch {
+		case s.f != nil && s.f.key == setupKey:
+			vkit.Skipped(1)
+			vkit.Class("inconclusive:" + class)
+			vkit.Extra("last_session_setup_failure", s.f.detail)
+		case s.f != nil:
+			vkit.Violation(t, s.f.key, "["+s.name+"] "+s.f.detail, s.c)
+			vkit.Case("known:"+s.f.key, false, "")
+		case s.o.inconclusive:
+			vkit.Skipped(1)
+			vkit.Class("inconclusive:" + class)
+		default:
+			vkit.Case(class, true, caseSig(s.c)+s.name)
+			vkit.Sample(class, summarize(s.c))
+		}
+	}
 }
 
 var sessionRuns, sessionSetupFailures atomic.Int64
